@@ -60,6 +60,7 @@ PROPS["C07"] = {
 }
 PROPS["C09"] = {
     "units": ["contracts.c09_sorted", "contracts.c09_sorted:unit_map", "contracts.c09_sorted:unit_map_pairs",
+              "contracts.c09_sorted:unit_map_update", "contracts.c09_sorted:unit_map_update_dict",
               "contracts.c09_sorted:unit_foreign", "contracts.c19_generic:unit_arg_sort"],
     "bounded": True,
     "level": "proof",
@@ -74,7 +75,8 @@ PROPS["C09"] = {
                   "popitem, clear and the mapping views over SortedMap are covered by the bounded layer only.",
 }
 PROPS["C19"] = {
-    "units": ["contracts.c19_generic:unit_arg_sort", "contracts.c19_generic:unit_subseq", "contracts.c19_generic:unit_batcher"],
+    "units": ["contracts.c19_generic:unit_arg_sort", "contracts.c19_generic:unit_subseq", "contracts.c19_generic:unit_batcher",
+              "contracts.c19_generic:unit_compare"],
     "bounded": True,
     "level": "other",
     "trusted_base": ["pyvc VC generator (/verif/pyvc)", "z3", "Python semantics as listed in DESIGN.md §2.3", "sorted() library contract"],
